@@ -1,7 +1,8 @@
 """C06 — backings are persistent: snapshots and copies never change."""
 from hist import *  # noqa
 
-THEOREMS = []
+THEOREMS = ["C06_heap_frame", "C06_setter_extends", "C06_root_frame", "C06_copy_isolated", "C06_copy_has_no_hook"]
+PARTIAL = ["commands addressed to HOOKED children of a copy reach only the copy and its descendants: proved for the unhooked (top-level / copy) case; the hooked case is covered by the correspondence (every held view compared after every command) and the snapshot oracle"]
 COQ_IMPORTS = ["RM.Types", "RM.ModelStore", "RMR.RunH"]
 COQ_FN = "RunH.run"
 COQ_CASE_TY = "RunH.case"
